@@ -135,7 +135,7 @@ func TestVerifC16SessionManager(t *testing.T) {
 	idm := idgen.NewIDManager(stor, context.Background())
 	defer idm.Close()
 
-	for trial := 0; trial < n && run.Violations() < 20; trial++ {
+	for trial := 0; trial < n && run.Violations() < 20 && run.Counter("leak_violations") < 3; trial++ {
 		k := ks[r.Intn(len(ks))]
 		m := []int{0, 1, 5}[r.Intn(3)]
 		withCloseConn := r.Intn(2) == 0
@@ -272,7 +272,8 @@ func TestVerifC16SessionManager(t *testing.T) {
 		}
 		if l := snap.Leaked(scope, nil, 3*time.Second); len(l) > 0 {
 			sum := vk.FrameSummary(l)
-			run.Violation("C16:session|goroutine-left|"+sum[0], map[string]any{"case": desc, "frames": sum, "stack": l[0].Stack})
+			run.Violation("C16:session|goroutine-left|"+c16LeakFn(sum[0]), map[string]any{"case": desc, "frames": sum, "stack": l[0].Stack})
+			run.Count("leak_violations", 1) // after 3 the test stops: every further trial would wait the full poll interval
 		}
 		// representative public methods after close, under recover
 		pn, pf := net.Pipe()
@@ -323,7 +324,16 @@ func TestVerifC16SessionManager(t *testing.T) {
 		}
 		if l := snap.Leaked(scope, nil, time.Second); len(l) > 0 {
 			sum := vk.FrameSummary(l)
-			run.Violation("C16:session|goroutine-left-after-post-close-calls|"+sum[0], map[string]any{"case": desc, "frames": sum, "stack": l[0].Stack})
+			run.Violation("C16:session|goroutine-left-after-post-close-calls|"+c16LeakFn(sum[0]), map[string]any{"case": desc, "frames": sum, "stack": l[0].Stack})
+			run.Count("leak_violations", 1) // after 3 the test stops: every further trial would wait the full poll interval
 		}
 	}
+}
+
+// c16LeakFn strips the (varying) goroutine state from a vk.FrameSummary entry.
+func c16LeakFn(s string) string {
+	if i := strings.Index(s, "tunnox-core/"); i >= 0 {
+		return s[i:]
+	}
+	return s
 }
